@@ -119,7 +119,15 @@ class World:
     def op_attach_fresh(self, via):
         name = self.fresh_name()
         cls = self.rng.choice(self.types)
-        m = cls(name=name)
+        r = self.rng.random()
+        if r < 0.2:
+            m = cls(name=name, parent=self.p)       # the constructor accepts the owning project as a keyword
+            self.res.count("constructed_with_parent_keyword")
+        elif r < 0.3:
+            m = cls(name=name, parent=self.p, index=self.rng.randint(0, 5))
+            self.res.count("constructed_with_parent_keyword")
+        else:
+            m = cls(name=name)
         if via == "iadd":
             self.p += m
         else:
